@@ -107,6 +107,20 @@ func (v *Voter) Verify(proposal *hotstuff.ProposeMsg) (err error) {
 	if err := v.auth.VerifyAnyQC(proposal); err != nil {
 		return err
 	}
+	// the block must directly extend the block certified by its quorum certificate:
+	// the parent is the certified block and the view is higher than that block's view.
+	qc := proposal.Block.QuorumCert()
+	if proposal.Block.Parent() != qc.BlockHash() {
+		return fmt.Errorf("block parent %s is not the block certified by its quorum certificate (%s)",
+			proposal.Block.Parent().SmallString(), qc.BlockHash().SmallString())
+	}
+	qcBlock, ok := v.committer.blockchain.Get(qc.BlockHash())
+	if !ok {
+		return fmt.Errorf("block certified by the quorum certificate not found: %s", qc.BlockHash().SmallString())
+	}
+	if blockView <= qcBlock.View() {
+		return fmt.Errorf("block view %d is not higher than the view %d of the certified block", blockView, qcBlock.View())
+	}
 	// ensure the block came from the expected leader.
 	leaderID := v.leaderRotation.GetLeader(blockView)
 	if proposal.ID != leaderID {
